@@ -837,6 +837,11 @@ fn gen_n(rng: &mut Rng, max: usize) -> usize {
 
 /// a part count: small, around n, above n, or up to 65
 fn gen_parts(ctx: &mut Ctx, n: usize) -> usize {
+    if n >= 4096 {
+        // large inputs: enough parts for every level of the parallel code to run
+        let span = if ctx.rng.chance(1, 4) { 1000 } else { 63 };
+        return 2 + ctx.rng.usize(span);
+    }
     match ctx.rng.usize(6) {
         0 => 1 + ctx.rng.usize(2),
         1 | 2 => 2 + ctx.rng.usize(8),
@@ -852,7 +857,7 @@ fn emit(ctx: &mut Ctx, case: &Case, ts: &[usize]) {
 }
 
 /// Every algorithm on one geometric / weight input.
-fn one_random_case(ctx: &mut Ctx, which: usize, n: usize, ts: &[usize]) {
+fn one_random_case(ctx: &mut Ctx, which: usize, n: usize, large: bool, ts: &[usize]) {
     let pm = *ctx.rng.pick(&POINT_MODES);
     let wm = *ctx.rng.pick(&WEIGHT_MODES);
     let dim = 2 + ctx.rng.usize(2);
@@ -860,7 +865,7 @@ fn one_random_case(ctx: &mut Ctx, which: usize, n: usize, ts: &[usize]) {
     let case = match which {
         0 | 1 => {
             let pts = gen_points(&mut ctx.rng, dim, n, pm);
-            let iter = ctx.rng.usize(7);
+            let iter = if large { 3 + ctx.rng.usize(4) } else { ctx.rng.usize(7) };
             let tol = *ctx.rng.pick(&TOLS);
             let w = wts(&mut ctx.rng, w);
             ctx.count(&format!("points_{}", pm));
@@ -921,6 +926,10 @@ fn one_random_case(ctx: &mut Ctx, which: usize, n: usize, ts: &[usize]) {
             Case::Greedy { parts, w }
         }
         6 => {
+            // the list-based Kk model costs n^2 k^2: moderate sizes (the algorithm is sequential,
+            // large inputs add nothing for this property)
+            let n = n.min(120);
+            let w = gen_weights(&mut ctx.rng, n, wm);
             let parts = gen_parts(ctx, n);
             ctx.count(&format!("weights_{}", wm));
             Case::Kk { parts, w }
@@ -935,7 +944,7 @@ fn one_random_case(ctx: &mut Ctx, which: usize, n: usize, ts: &[usize]) {
         }
         8 => {
             // grid with about n cells
-            let iter = ctx.rng.usize(7);
+            let iter = if large { 3 + ctx.rng.usize(4) } else { ctx.rng.usize(7) };
             let dims: Vec<usize> = if dim == 2 {
                 let a = 1 + ctx.rng.usize(((n as f64).sqrt() as usize * 2).max(1));
                 vec![a, (n / a).max(1)]
@@ -1057,7 +1066,7 @@ pub fn generate(ctx: &mut Ctx) {
     for _ in 0..per_algo {
         for which in 0..10 {
             let n = gen_n(&mut ctx.rng, max_n);
-            one_random_case(ctx, which, n, &ts);
+            one_random_case(ctx, which, n, false, &ts);
         }
     }
 
@@ -1067,7 +1076,7 @@ pub fn generate(ctx: &mut Ctx) {
         for which in [0usize, 1, 2, 3, 4, 8] {
             let n = 4500 + ctx.rng.usize(5000);
             ctx.count("large_cases");
-            one_random_case(ctx, which, n, &ts);
+            one_random_case(ctx, which, n, true, &ts);
         }
     }
 
